@@ -876,13 +876,11 @@ func (p *sshFxpReadPacket) getDataSlice(alloc *allocator, orderID uint32, maxTxP
 		dataLen = maxTxPacket
 	}
 
-	if alloc != nil {
+	if alloc != nil && dataLen <= maxMsgLength {
 		// GetPage returns a slice with capacity = maxMsgLength this is enough to avoid new allocations in
 		// sshFxpDataPacket.MarshalBinary
-		if dataLen > maxMsgLength {
-			// a page cannot hold more, whatever WithMaxTxPacket allows
-			dataLen = maxMsgLength
-		}
+		// (a read larger than a page, possible with a max tx packet above 256 KiB, does not fit
+		// into a page: it is served from a plain allocation below, exactly as without the allocator)
 		return alloc.GetPage(orderID)[:dataLen]
 	}
 
